@@ -25,10 +25,10 @@ BASES = {'Transformer': Transformer, 'Transformer_NonRecursive': Transformer_Non
          'Transformer_InPlace': Transformer_InPlace, 'Transformer_InPlaceRecursive': Transformer_InPlaceRecursive}
 RULE_NAMES = ('start', 'a', 'ali', 't')
 TOK_NAMES = ('X', '_Y')
-VARIANTS = ('plain', 'inline', 'tree', 'subset', 'notok')
+VARIANTS = ('plain', 'inline', 'tree', 'subset', 'notok', 'toknone')       # toknone: the callback of X returns None
 
 
-def make_transformer(base, variant, log=None):
+def make_transformer(base, variant, log=None, visit_tokens=True):
     """A fresh pure transformer class instance."""
     ns = {}
 
@@ -56,6 +56,8 @@ def make_transformer(base, variant, log=None):
         def f(self, t):
             if log is not None:
                 log.append(name)
+            if variant == 'toknone' and name == 'X':
+                return None
             return ('tok', name, str(t))
         return f
     names = RULE_NAMES if variant != 'subset' else ('a', 'ali')
@@ -64,7 +66,7 @@ def make_transformer(base, variant, log=None):
     if variant != 'notok':
         for n in TOK_NAMES:
             ns[n] = tok_cb(n)
-    return type('T_%s_%s' % (base, variant), (BASES[base],), ns)()
+    return type('T_%s_%s' % (base, variant), (BASES[base],), ns)(visit_tokens=visit_tokens)
 
 
 def canon(x):
@@ -124,7 +126,7 @@ def check(g, gi, boxname, b, inputs, res, only=None):
                     p = ('ok', canon(post[1])) if post[0] == 'ok' else (post[0], type(post[1]).__name__, str(getattr(post[1], 'orig_exc', post[1]))[:80])
                     if e != p:
                         cause = 'embedded-vs-posthoc'
-                        if base == 'Transformer_InPlace' and variant in ('plain', 'subset', 'notok'):
+                        if base == 'Transformer_InPlace' and variant in ('plain', 'subset', 'notok', 'toknone'):
                             cause = 'inplace-embedded-undecorated'
                         res['viol'].append({'kind': 'embedded-differs-from-posthoc', 'cause': cause, 'case': dict(cfg, input=w),
                                             'expected': p, 'observed': e})
@@ -188,13 +190,13 @@ def expected_order(t, names, toks, out):
 def part2(max_nodes, lo, hi, res, only=None):
     trees = list(small_trees(max_nodes))[lo:hi]
     for n, t in trees:
-        for variant in VARIANTS:
+        for variant in VARIANTS + ('novisit',):
             if only and (only['tree'], only['variant']) != (repr(t), variant):
                 continue
             results, logs = {}, {}
             for base in BASES:
                 log = []
-                T = make_transformer(base, variant, log)
+                T = make_transformer(base, 'plain' if variant == 'novisit' else variant, log, visit_tokens=(variant != 'novisit'))
                 r = util.timed(lambda: T.transform(build(t)))
                 res['evals'] += 1
                 results[base] = ('ok', canon(r[1])) if r[0] == 'ok' else (r[0], type(r[1]).__name__)
@@ -202,7 +204,7 @@ def part2(max_nodes, lo, hi, res, only=None):
             if n >= 2:
                 res['nontrivial'] += 1
             names = RULE_NAMES if variant != 'subset' else ('a', 'ali')
-            toks = TOK_NAMES if variant != 'notok' else ()
+            toks = TOK_NAMES if variant not in ('notok', 'novisit') else ()
             want_log = []
             expected_order(t, names, toks, want_log)
             case = {'part': 2, 'tree': repr(t), 'variant': variant, 'max_nodes': max_nodes}
